@@ -24,6 +24,9 @@ def PCfg.tol (cfg : PCfg) : PCfg := { cfg with tolerant := true }
 @[simp] theorem tol_peekPrecedence (cfg : PCfg) (st : PS) : peekPrecedence cfg.tol st = peekPrecedence cfg.strict st := rfl
 @[simp] theorem tol_curPrecedence (cfg : PCfg) (st : PS) : curPrecedence cfg.tol st = curPrecedence cfg.strict st := rfl
 
+theorem tol_lt_peekPrec (cfg : PCfg) (st : PS) (prec : Nat) :
+    decide (prec < peekPrecedence cfg.tol st) = decide (prec < peekPrecedence cfg.strict st) := rfl
+
 /-- where strict mode accepts the statement end, tolerant mode does exactly the same -/
 theorem tol_expectSemi_of_ok (cfg : PCfg) (st : PS) (h : (expectSemiASI cfg.strict st).1 = true) :
     expectSemiASI cfg.tol st = expectSemiASI cfg.strict st := by
@@ -37,5 +40,10 @@ theorem tol_expectSemi_of_ok (cfg : PCfg) (st : PS) (h : (expectSemiASI cfg.stri
 /-- where strict mode refuses, it records an error -/
 theorem strict_expectSemi_err (cfg : PCfg) (st : PS) (h : (expectSemiASI cfg.strict st).1 = false) :
     semiErr cfg.strict st = 1 := semiErr_of_false h
+
+/-- `parseFunctionParameters` does not depend on the mode -/
+theorem tol_parseFunctionParameters (st : PS) (x : List Ident) (st' : PS) (h : parseFunctionParameters st = some (x, st')) :
+    st.elen ≤ st'.elen ∧ (parseFunctionParameters st = some (x, st') ∨ st.elen < st'.elen) :=
+  ⟨elen_parseFunctionParameters h, Or.inl h⟩
 
 end Xjs
